@@ -430,6 +430,28 @@ func flattenScenarios(tier string, seed int64, scratch string) ([]*Case, []strin
 			// a pointer nested in a pointer target belongs to the wider class W+ (C09 only)
 			// ... and so do holders under keywords that Swagger 2.0 does not have (patternProperties, anyOf, oneOf, not, nested definitions)
 			WPlus: fs.S == "ptrarray" || fs.H == "patprop" || fs.H == "anyof" || fs.H == "oneof" || fs.H == "not" || fs.H == "nesteddefs"}
+		// an imported name is mangled (swag.ToJSONName) before it is compared with the root's names: the scenarios that speak of a
+		// collision get a mangle-stable spelling for the colliding name, or there would be no collision to speak of
+		collider := ""
+		switch {
+		case fs.T == "anonimport":
+			collider = "N_2"
+		case fs.C != "none" && fs.C != "gennames":
+			collider = "N_1"
+		}
+		if _, bound := g.Names.ToConcrete[collider]; collider != "" && !bound {
+			for try := 0; try < 50; try++ {
+				nm := plainWords[g.r.Intn(len(plainWords))]
+				if try%2 == 1 {
+					nm += strings.Title(plainWords[g.r.Intn(len(plainWords))])
+				}
+				if swag.ToJSONName(nm) == nm && !g.usedConcrete[nm] && !reservedWords[nm] {
+					g.usedConcrete[nm] = true
+					g.Names.Bind(collider, nm)
+					break
+				}
+			}
+		}
 		bindPlaceholders(g, b.Docs)
 		for _, cc := range g.Names.ToConcrete {
 			if !safeKeyRe.MatchString(cc) && !strings.HasPrefix(cc, "/") {
